@@ -1,7 +1,9 @@
 ------------------------------ MODULE Trace_Ctx ------------------------------
 (***************************************************************************)
 (* Trace validation for C12 (monitor).  Events of one run:                 *)
-(*   Req(c, tok, seq, sets)     client c sent request tok with sequence    *)
+(*   Req(c, tok, seq, sets, corr)  client c sent request tok with sequence *)
+(*                              number seq and correlation id corr (-1 =   *)
+(*                              none: the daemon must assign a fresh one)  *)
 (*                              number seq; sets = its method sets a       *)
 (*                              response annotation (named after tok)      *)
 (*   Exec(tok, c, seq, reqann, corr, ser, oneway)  context snapshot taken  *)
@@ -33,7 +35,7 @@ Check(e) ==
                 IF e.c # r.c THEN "C12.ContextNotOwn.connection"
                 ELSE IF e.seq # r.seq THEN "C12.ContextNotOwn.seq"
                 ELSE IF e.reqann # e.tok THEN "C12.ContextNotOwn.annotations"
-                ELSE IF e.corr # e.tok THEN "C12.ContextNotOwn.correlation"
+                ELSE IF e.corr # r.corr THEN "C12.ContextNotOwn.correlation"
                 ELSE IF e.ser # r.ser THEN "C12.ContextNotOwn.serializer"
                 ELSE IF e.oneway # r.oneway THEN "C12.ContextNotOwn.flags"
                 ELSE ""
